@@ -1,8 +1,620 @@
-// Package c02: stub (property not built yet).
+// Package c02: the verified receive entry point, the PUT and multipart upload handlers and the
+// self-verifying stores against the Lean model Pk.Recv and the property's oracle.
 package c02
 
-import "verifharness/hk"
+import (
+	"bytes"
+	"context"
+	"crypto/sha1"
+	"crypto/sha256"
+	"encoding/hex"
+	"errors"
+	"fmt"
+	"io"
+	"mime/multipart"
+	"net/http"
+	"net/http/httptest"
+	"strconv"
+	"strings"
 
-func NewExec() func(w []string) string { return func([]string) string { return "bad-op" } }
+	"perkeep.org/pkg/blob"
+	"perkeep.org/pkg/blobserver"
+	"perkeep.org/pkg/blobserver/handlers"
+	"perkeep.org/pkg/constants"
 
-func Run(r *hk.Run) { r.Note("not built yet") }
+	"verifharness/hk"
+	"verifharness/props/c01"
+	"verifharness/stores"
+)
+
+var ctx = context.Background()
+
+// fragReader delivers the fragments one Read at a time, then EOF, EOF together with the last
+// fragment ("eof+"), or an error.
+type fragReader struct {
+	frags [][]byte
+	fin   string
+	cur   []byte
+}
+
+var errSrc = errors.New("verif: injected source error")
+
+func (f *fragReader) Read(p []byte) (int, error) {
+	if len(f.cur) == 0 {
+		if len(f.frags) == 0 {
+			if f.fin == "err" {
+				return 0, errSrc
+			}
+			return 0, io.EOF
+		}
+		f.cur, f.frags = f.frags[0], f.frags[1:]
+		if len(f.cur) == 0 {
+			return 0, nil
+		}
+	}
+	n := copy(p, f.cur)
+	f.cur = f.cur[n:]
+	if len(f.cur) == 0 && len(f.frags) == 0 && f.fin == "eof+" {
+		return n, io.EOF
+	}
+	return n, nil
+}
+
+type configer struct {
+	blobserver.Storage
+}
+
+func (configer) Config() *blobserver.Config {
+	return &blobserver.Config{Writable: true, Readable: true, Deletable: true, CanLongPoll: true}
+}
+
+type execState struct {
+	env   *stores.Env
+	sto   blobserver.Storage
+	hubN  int
+	inner func([]string) string // c01 interpreter for cfg and reads
+}
+
+func classify(err error) string {
+	switch {
+	case err == nil:
+		return "ok"
+	case errors.Is(err, blobserver.ErrCorruptBlob):
+		return "corrupt"
+	case strings.Contains(err.Error(), "over the limit"):
+		return "toobig"
+	case strings.Contains(err.Error(), "no registered hash function"), strings.Contains(err.Error(), "Unsupported blobref hash"):
+		return "badhash"
+	default:
+		return "err"
+	}
+}
+
+// drainHub returns the number of hub notifications since the last call (counted by a synchronous
+// receive hook: listener channels are fed from goroutines and would race with the next op).
+func (st *execState) drainHub() int {
+	n := st.hubN
+	st.hubN = 0
+	return n
+}
+
+func parseFrags(ws []string) ([][]byte, bool) {
+	var out [][]byte
+	for _, w := range ws {
+		b, ok := hk.UnHex(w)
+		if !ok {
+			return nil, false
+		}
+		out = append(out, b)
+	}
+	return out, true
+}
+
+func (st *execState) exec(w []string) string {
+	if len(w) == 0 {
+		return "bad-op"
+	}
+	switch w[0] {
+	case "cfg":
+		if st.env != nil {
+			st.env.Close()
+			st.env = nil
+		}
+		i := 0
+		for i < len(w) && w[i] != "//" {
+			i++
+		}
+		if i >= len(w)-1 {
+			return "bad-op"
+		}
+		n, rest, ok := c01.ParseTree(w[i+1:])
+		if !ok || len(rest) != 0 {
+			return "bad-op"
+		}
+		env, err := stores.NewEnv()
+		if err != nil {
+			return "bad-op"
+		}
+		s, err := env.Build(n, nil)
+		if err != nil {
+			env.Close()
+			return "bad-op"
+		}
+		st.env, st.sto = env, s
+		st.hubN = 0
+		blobserver.GetHub(s).AddReceiveHook(func(blob.SizedRef) error { st.hubN++; return nil })
+		return "ok"
+	case "recv":
+		if len(w) < 5 || st.sto == nil {
+			return "bad-op"
+		}
+		kb, ok := hk.UnHex(w[1])
+		frags, ok2 := parseFrags(w[5:])
+		if !ok || !ok2 {
+			return "bad-op"
+		}
+		br, ok := blob.Parse(string(kb))
+		if !ok {
+			return "bad-op"
+		}
+		st.drainHub()
+		sb, err := blobserver.Receive(ctx, st.sto, br, &fragReader{frags: frags, fin: w[4]})
+		hub := st.drainHub()
+		if err != nil {
+			return fmt.Sprintf("%s hub=%d", classify(err), hub)
+		}
+		return fmt.Sprintf("accepted %d hub=%d", sb.Size, hub)
+	case "put":
+		if len(w) < 7 || st.sto == nil {
+			return "bad-op"
+		}
+		kb, ok := hk.UnHex(w[1])
+		frags, ok2 := parseFrags(w[7:])
+		if !ok || !ok2 {
+			return "bad-op"
+		}
+		req := httptest.NewRequest("PUT", "http://localhost/bs/camli/"+string(kb), &fragReader{frags: frags, fin: w[6]})
+		if w[5] == "none" {
+			req.ContentLength = -1
+		} else {
+			n, err := strconv.Atoi(w[5])
+			if err != nil {
+				return "bad-op"
+			}
+			req.ContentLength = int64(n)
+		}
+		rec := httptest.NewRecorder()
+		handlers.CreatePutUploadHandler(st.sto).ServeHTTP(rec, req)
+		return strconv.Itoa(rec.Code)
+	case "multipart":
+		if st.sto == nil {
+			return "bad-op"
+		}
+		var body bytes.Buffer
+		mw := multipart.NewWriter(&body)
+		group := []string{}
+		flush := func() bool {
+			if len(group) < 4 {
+				return false
+			}
+			kb, ok := hk.UnHex(group[0])
+			frags, ok2 := parseFrags(group[4:])
+			if !ok || !ok2 {
+				return false
+			}
+			pw, err := mw.CreateFormFile(string(kb), "x")
+			if err != nil {
+				return false
+			}
+			for _, f := range frags {
+				pw.Write(f)
+			}
+			return true
+		}
+		for _, t := range w[1:] {
+			if t == "|" {
+				if !flush() {
+					return "bad-op"
+				}
+				group = group[:0]
+				continue
+			}
+			group = append(group, t)
+		}
+		if !flush() {
+			return "bad-op"
+		}
+		mw.Close()
+		req := httptest.NewRequest("POST", "http://localhost/bs/camli/upload", &body)
+		req.Header.Set("Content-Type", mw.FormDataContentType())
+		rec := httptest.NewRecorder()
+		handlers.CreateBatchUploadHandler(configer{st.sto}).ServeHTTP(rec, req)
+		// canonical: the "received" list of the JSON answer
+		out := []string{"received"}
+		js := rec.Body.String()
+		for _, part := range strings.Split(js, "{") {
+			if i := strings.Index(part, "\"blobRef\":"); i >= 0 {
+				rest := part[i+len("\"blobRef\":"):]
+				q1 := strings.Index(rest, "\"")
+				q2 := strings.Index(rest[q1+1:], "\"")
+				ref := rest[q1+1 : q1+1+q2]
+				sz := ""
+				if j := strings.Index(rest, "\"size\":"); j >= 0 {
+					sz = strings.TrimSpace(rest[j+len("\"size\":"):])
+					sz = strings.TrimRight(strings.FieldsFunc(sz, func(r rune) bool { return r < '0' || r > '9' })[0], " ")
+				}
+				out = append(out, hk.Hex([]byte(ref))+":"+sz)
+			}
+		}
+		return strings.Join(out, " ")
+	}
+	// reads: same as c01, on the same storage
+	if st.sto == nil {
+		return "bad-op"
+	}
+	return c01.ExecOn(st.sto, w)
+}
+
+// NewExec returns a fresh interpreter of the c02 protocol.
+func NewExec() func(w []string) string {
+	st := &execState{}
+	return func(w []string) string { return hk.Guard(func() string { return st.exec(w) }) }
+}
+
+// ---- generator + oracle -----------------------------------------------------------------------------
+
+func refOf(name string, v []byte) string {
+	switch name {
+	case "sha1":
+		s := sha1.Sum(v)
+		return "sha1-" + hex.EncodeToString(s[:])
+	case "sha256":
+		s := sha256.Sum256(v)
+		return "sha256-" + hex.EncodeToString(s[:])
+	}
+	s := sha256.Sum224(v)
+	return "sha224-" + hex.EncodeToString(s[:])
+}
+
+func fragment(r *hk.Rand, data []byte) [][]byte {
+	var out [][]byte
+	switch r.Intn(5) {
+	case 0:
+		return [][]byte{data}
+	case 1: // one byte at a time
+		for i := range data {
+			out = append(out, data[i:i+1])
+		}
+		return out
+	default:
+		for len(data) > 0 {
+			n := 1 + r.Intn(len(data))
+			if r.Chance(10) {
+				out = append(out, nil) // a Read returning (0, nil)
+			}
+			out = append(out, data[:n])
+			data = data[n:]
+		}
+		return out
+	}
+}
+
+func fragTokens(frags [][]byte) string {
+	if len(frags) == 0 {
+		return ""
+	}
+	parts := make([]string, len(frags))
+	for i, f := range frags {
+		parts[i] = hk.Hex(f)
+	}
+	return " " + strings.Join(parts, " ")
+}
+
+type offer struct {
+	key      string // ref text
+	truth    []byte // content the ref denotes; nil+unknown=true → nothing matches
+	noTruth  bool
+	offered  []byte
+	kind     string
+	supported bool
+}
+
+func mkOffer(r *hk.Rand) offer {
+	v := r.Bytes(r.Intn(60))
+	if r.Chance(15) {
+		v = []byte(fmt.Sprintf("{\"camliVersion\": 1,\n  \"camliType\": \"permanode\",\n  \"random\": \"%x\"\n}", r.Bytes(5)))
+	}
+	name := []string{"sha1", "sha224", "sha224", "sha256"}[r.Intn(4)]
+	o := offer{key: refOf(name, v), truth: v, offered: v, kind: "true", supported: true}
+	switch r.Intn(10) {
+	case 0:
+		if len(v) > 0 {
+			o.offered, o.kind = v[:r.Intn(len(v))], "truncated"
+		}
+	case 1:
+		o.offered, o.kind = append(append([]byte{}, v...), r.Bytes(1+r.Intn(3))...), "extended"
+	case 2:
+		if len(v) > 0 {
+			m := append([]byte{}, v...)
+			m[r.Intn(len(m))] ^= 1 << uint(r.Intn(8))
+			o.offered, o.kind = m, "bitflip"
+		}
+	case 3:
+		if len(v) > 1 {
+			m := append([]byte{}, v...)
+			i, j := r.Intn(len(m)), r.Intn(len(m))
+			m[i], m[j] = m[j], m[i]
+			if !bytes.Equal(m, v) {
+				o.offered, o.kind = m, "permuted"
+			}
+		}
+	case 4:
+		// an unknown hash name: well-formed ref, unsupported
+		o.key, o.noTruth, o.supported, o.kind = "foo-"+hex.EncodeToString(r.Bytes(4)), true, false, "unknown-hash"
+	case 5:
+		// a supported ref whose digest is the hash of nothing in play
+		o.key, o.noTruth, o.kind = name+"-"+hex.EncodeToString(r.Bytes(map[string]int{"sha1": 20, "sha224": 28, "sha256": 32}[name])), true, "random-digest"
+	}
+	return o
+}
+
+func (o offer) truthTok() string {
+	if o.noTruth {
+		return "none"
+	}
+	return hk.Hex(o.truth)
+}
+
+func b01(b bool) string {
+	if b {
+		return "1"
+	}
+	return "0"
+}
+
+type caseRun struct {
+	r        *hk.Run
+	ex       func([]string) string
+	accepted map[string][]byte
+	label    string
+}
+
+func (c *caseRun) op(line string) string {
+	out := c.ex(strings.Fields(line))
+	c.r.Op(line, out)
+	return out
+}
+
+// after a rejected upload of key k (never accepted before): no trace
+func (c *caseRun) noTrace(o offer, path string) {
+	if _, ok := c.accepted[o.key]; ok {
+		return
+	}
+	hkey := hk.Hex([]byte(o.key))
+	f := c.op("fetch " + hkey)
+	s := c.op("stat " + hkey)
+	e := c.op("enum - 1000")
+	if f != "notexist" || s != "stats" || strings.Contains(e, hkey+":") {
+		c.r.Fail("rejected-upload-leaves-trace:"+path+":"+o.kind, c.label+": after a rejected "+path+" of "+o.key+" ("+o.kind+")",
+			"notexist / stats / not enumerated", f[:min(len(f), 60)]+" / "+s[:min(len(s), 60)], c.r.CaseOps())
+	}
+}
+
+func (c *caseRun) verdict(o offer, fin string) string {
+	if !o.supported {
+		return "badhash"
+	}
+	if fin == "err" {
+		return "err"
+	}
+	if !o.noTruth && bytes.Equal(o.offered, o.truth) {
+		return "accepted"
+	}
+	return "corrupt"
+}
+
+// Run generates the C02 cases.
+func Run(r *hk.Run) {
+	rnd := r.R
+	r.Res.Rule = "a case = one storage tree (memory, localdisk, diskpacked, and composites as in C01) and a sequence of offers (ref, bytes) through blobserver.Receive, the PUT handler and the multipart handler; offers are the true content or a truncation / extension / bit flip / permutation of it, refs of sha1/sha224/sha256, of an unknown hash name, or with a digest nothing hashes to; sources are fragmented arbitrarily (1-byte reads, empty reads, data+EOF together) and may fail mid-stream; after every rejection the ref must be absent from fetch/stat/enumerate and the hub silent. Sizes on both sides of the 16 MiB cap are offered to the real code (oracle only). distinct_nontrivial = distinct (ingest path, offer kind, end kind, verdict) combinations"
+	nCases, nOffers := 12, 60
+	if r.Thorough() {
+		nCases, nOffers = 80, 200
+	}
+	trees := []string{"mem", "localdisk", "diskpacked:400", "replica mem localdisk", "overlay mem mem", "ns mem", "shard mem diskpacked", "cond mem mem", "proxy:200 mem memcache:100"}
+	for t := 0; t < nCases; t++ {
+		spec := trees[t%len(trees)]
+		n, _, _ := c01.ParseTree(strings.Fields(spec))
+		tok, _ := n.ModelToken()
+		r.Case(n.String())
+		c := &caseRun{r: r, ex: NewExec(), accepted: map[string][]byte{}, label: n.String()}
+		if out := c.op("cfg " + tok + " // " + spec); out != "ok" {
+			r.Note("cannot build " + spec)
+			continue
+		}
+		for i := 0; i < nOffers; i++ {
+			o := mkOffer(rnd)
+			fin := []string{"eof", "eof", "eof", "eof+", "err"}[rnd.Intn(5)]
+			frags := fragment(rnd, o.offered)
+			hkey := hk.Hex([]byte(o.key))
+			switch path := rnd.Intn(10); {
+			case path < 5:
+				out := c.op(fmt.Sprintf("recv %s %s %s %s%s", hkey, o.truthTok(), b01(o.supported), fin, fragTokens(frags)))
+				want := c.verdict(o, fin)
+				got := strings.Fields(out)
+				r.Distinct("recv/" + o.kind + "/" + fin + "/" + got[0])
+				if got[0] != want {
+					sig := "receive-verdict:" + o.kind + ":" + want + "->" + got[0]
+					r.Fail(sig, c.label+": Receive of "+o.kind+" content", want, out, r.CaseOps())
+				}
+				if want == "accepted" {
+					if out != fmt.Sprintf("accepted %d hub=1", len(o.offered)) {
+						r.Fail("receive-accept-answer", c.label+": accepted receive answer", fmt.Sprintf("accepted %d hub=1", len(o.offered)), out, r.CaseOps())
+					}
+					c.accepted[o.key] = o.offered
+				} else {
+					if !strings.HasSuffix(out, "hub=0") {
+						r.Fail("rejected-upload-notifies-hub:"+o.kind, c.label+": hub notified of a rejected blob", "hub=0", out, r.CaseOps())
+					}
+					c.noTrace(o, "receive")
+				}
+			case path < 8:
+				cl := "none"
+				if rnd.Bool() {
+					cl = strconv.Itoa(len(o.offered))
+				}
+				if fin == "err" && cl != "none" {
+					fin = "eof"
+				}
+				out := c.op(fmt.Sprintf("put %s %s %s 1 %s %s%s", hkey, o.truthTok(), b01(o.supported), cl, fin, fragTokens(frags)))
+				want := map[string]string{"accepted": "204", "corrupt": "400", "badhash": "400", "err": "500"}[c.verdict(o, fin)]
+				r.Distinct("put/" + o.kind + "/" + fin + "/" + out)
+				if out != want {
+					r.Fail("put-verdict:"+o.kind+":"+want+"->"+out, c.label+": PUT of "+o.kind+" content", want, out, r.CaseOps())
+				}
+				if want == "204" {
+					c.accepted[o.key] = o.offered
+				} else {
+					c.noTrace(o, "put")
+				}
+			default:
+				// a multipart request of 1-3 parts; the handler stops at the first failing part
+				np := 1 + rnd.Intn(3)
+				offers := []offer{o}
+				for len(offers) < np {
+					offers = append(offers, mkOffer(rnd))
+				}
+				var toks []string
+				var want []string
+				stopped := false
+				for _, p := range offers {
+					toks = append(toks, fmt.Sprintf("%s %s %s 1%s", hk.Hex([]byte(p.key)), p.truthTok(), b01(p.supported), fragTokens(fragment(rnd, p.offered))))
+					if stopped {
+						continue
+					}
+					if c.verdict(p, "eof") == "accepted" {
+						want = append(want, fmt.Sprintf("%s:%d", hk.Hex([]byte(p.key)), len(p.offered)))
+						c.accepted[p.key] = p.offered
+					} else {
+						stopped = true
+					}
+				}
+				out := c.op("multipart " + strings.Join(toks, " | "))
+				w := strings.TrimSpace("received " + strings.Join(want, " "))
+				r.Distinct(fmt.Sprintf("multipart/%d/%d", np, len(want)))
+				if out != w {
+					r.Fail("multipart-received-list", c.label+": multipart response lists", w, out[:min(len(out), 200)], r.CaseOps())
+				}
+				for _, p := range offers {
+					if c.verdict(p, "eof") != "accepted" {
+						c.noTrace(p, "multipart")
+					}
+				}
+			}
+		}
+		// everything accepted is fetched back byte for byte
+		for k, v := range c.accepted {
+			if out := c.op("fetch " + hk.Hex([]byte(k))); out != "bytes "+hk.Hex(v) {
+				r.Fail("accepted-blob-not-fetched-back", c.label+": fetch of accepted "+k, "bytes "+hk.Hex(v), out[:min(len(out), 80)], r.CaseOps())
+			}
+		}
+		if t < 2 {
+			ops := r.CaseOps()
+			r.Sample(map[string]any{"tree": n.String(), "first_ops": ops[:min(len(ops), 5)]})
+		}
+		c.ex([]string{"cfg"})
+	}
+	bigBlobs(r)
+}
+
+// bigBlobs offers bodies of Max-1, Max, Max+1 bytes to the real code (oracle only: the model's
+// statement about the cap is parametric in Max and proved; these runs pin the real constant).
+func bigBlobs(r *hk.Run) {
+	max := int(constants.MaxBlobSize)
+	n := 1
+	if r.Thorough() {
+		n = 2
+	}
+	for it := 0; it < n; it++ {
+		base := make([]byte, max+1)
+		seed := r.R.Bytes(64)
+		for i := range base {
+			base[i] = seed[i%64] + byte(i>>16)
+		}
+		for _, size := range []int{max - 1, max, max + 1} {
+			data := base[:size]
+			key := refOf("sha224", data)
+			br := blob.MustParse(key)
+			for _, path := range []string{"receive", "put-chunked", "put-length", "multipart"} {
+				ex := NewExec()
+				ex(strings.Fields("cfg mem // mem"))
+				sto := &execState{}
+				_ = sto
+				r.ImplOnly("big:" + path)
+				accepted := bigOffer(path, br, data)
+				want := size <= max
+				r.Distinct(fmt.Sprintf("big/%s/%d", path, size-max))
+				if accepted != want {
+					r.Fail("size-cap:"+path, fmt.Sprintf("%s of a %d-byte blob (cap %d) under its own ref", path, size, max), fmt.Sprint(want), fmt.Sprint(accepted), nil)
+				}
+				ex([]string{"cfg"})
+			}
+			// the property's headline: an extension of an exactly-Max-sized blob under the Max blob's ref
+			if size == max {
+				ext := base[:max+1]
+				for _, path := range []string{"receive", "put-chunked", "multipart"} {
+					r.ImplOnly("big-ext:" + path)
+					if bigOffer(path, br, ext) {
+						r.Fail("size-cap-extension-accepted:"+path, "a "+strconv.Itoa(max+1)+"-byte body whose first 16 MiB match the ref was accepted by "+path, "rejected", "accepted", nil)
+					}
+				}
+			}
+		}
+	}
+	// F-C02-1 probe: the extension through Receive
+	data := make([]byte, max+1)
+	br := blob.MustParse(refOf("sha224", data[:max]))
+	r.Probe("F-C02-1", bigOffer("receive", br, data), "Receive of Max+1 bytes under the ref of the first Max bytes")
+}
+
+// bigOffer reports whether the blob was accepted AND is visible afterwards.
+func bigOffer(path string, br blob.Ref, data []byte) bool {
+	env, _ := stores.NewEnv()
+	defer env.Close()
+	sto, _ := env.Build(&stores.Node{Kind: "mem"}, nil)
+	ok := false
+	switch path {
+	case "receive":
+		_, err := blobserver.Receive(ctx, sto, br, bytes.NewReader(data))
+		ok = err == nil
+	case "put-chunked", "put-length":
+		req := httptest.NewRequest("PUT", "http://localhost/bs/camli/"+br.String(), struct{ io.Reader }{bytes.NewReader(data)})
+		req.ContentLength = -1
+		if path == "put-length" {
+			req.ContentLength = int64(len(data))
+		}
+		rec := httptest.NewRecorder()
+		handlers.CreatePutUploadHandler(sto).ServeHTTP(rec, req)
+		ok = rec.Code == http.StatusNoContent
+	case "multipart":
+		var body bytes.Buffer
+		mw := multipart.NewWriter(&body)
+		pw, _ := mw.CreateFormFile(br.String(), "x")
+		pw.Write(data)
+		mw.Close()
+		req := httptest.NewRequest("POST", "http://localhost/bs/camli/upload", &body)
+		req.Header.Set("Content-Type", mw.FormDataContentType())
+		rec := httptest.NewRecorder()
+		handlers.CreateBatchUploadHandler(configer{sto}).ServeHTTP(rec, req)
+		ok = strings.Contains(rec.Body.String(), br.String()) && strings.Contains(rec.Body.String(), "\"received\": [\n")
+		if strings.Contains(rec.Body.String(), "\"received\": []") {
+			ok = false
+		}
+	}
+	_, cls := stores.Fetch(ctx, sto, br)
+	visible := cls == "ok"
+	if ok != visible {
+		return true // acknowledged xor stored: report as "accepted" so that the oracle flags it
+	}
+	return ok
+}
